@@ -17,9 +17,8 @@ EXTENDS Naturals, FiniteSets
 
 CONSTANTS Ops,      \* set of [p, u, ps, us, cs, merge]
           Inits,    \* set of sets of records
-          Depth     \* bound on the number of operations
-
-Fold(s) == CASE s = "A" -> "a" [] s = "X" -> "x" [] OTHER -> s
+          Depth,    \* bound on the number of operations
+          Fold(_)   \* case folding of the alphabet's strings (generated from Python's str.casefold)
 
 VARIABLES recs, last, depth
 vars == <<recs, last, depth>>
